@@ -77,6 +77,7 @@ typedef struct Node {
 	int efail_errno;             /* errno the failing call reports (0 = leave errno untouched) */
 	int64_t eburst_at; int eburst_k; uint8_t eburst_val;
 	int efail_fired, eburst_fired;
+	int efail_next_seen, efail_retried;   /* the draw right after the first failed one asked for the same number of bytes: a retry */
 	/* allocator: the library's malloc calls made by tasks of this node */
 	uint64_t nmalloc; int64_t afail_at; int afail_rest; int afail_fired;
 	uint64_t efail_step;         /* sim step at which the failure was injected */
@@ -122,6 +123,7 @@ int  sim_spawn(const char *name, int node, void (*fn)(void *), void *arg);
 void sim_run(void);                              /* main thread: run until all tasks done */
 void sim_trace(int kind, int64_t a, int64_t b);
 void sim_yield(int kind, int64_t a, int64_t b);  /* scheduling point */
+extern int g_setup_node;                          /* >= 0 while the harness sets up that node's endpoint outside any task */
 void sim_progress(void);                         /* heartbeat for the CPU watchdog between library calls inside one step */
 int  sim_block(WaitPred pred, void *arg);        /* returns 0 ok, -1 aborted */
 void sim_sleep(int64_t ns);
